@@ -7,7 +7,7 @@ PROP = dict(
                'vbq.dtor.owns', 'vbq.cell.lifetime', 'vbq.push.accepted_owned', 'vbq.push.rejected_stays_with_caller', 'vbq.pop.destroys_once', 'vbq.pop.lambda_contract',
                'vbq.pop.commit', 'vbq.push.commit',
                'nbq.push.rejected_untouched', 'nbq.pop.destroy_before_release', 'nbq.own.exactly_once', 'nbq.dtor.owns', 'nbq.push.publish_order', 'nbq.inv.preserved',
-               'nq.push.rollback', 'nq.pop.destroy_before_release', 'nq.node.delete_once', 'nq.node.no_leak', 'nq.own.exactly_once', 'nq.node_dtor.owned_only', 'nq.dtor.owns', 'nq.push.publish_order'],
+               'nq.push.rollback', 'nq.pop.destroy_before_release', 'nq.pop_optional.same_as_try_pop', 'nbq.pop_optional.same_as_try_pop', 'nq.node.delete_once', 'nq.node.no_leak', 'nq.own.exactly_once', 'nq.node_dtor.owned_only', 'nq.dtor.owns', 'nq.push.publish_order'],
   level_text='Ownership obligations of every queue unit are discharged proofs (shape-complete / unbounded); the property is reported at level other because nikolaev_queue additionally relies on the SCQ finalization obligations (finalized rings with at most 2 burnt tail tickets: runs *_f1 classified bounded, not counted as discharged).',
   explanation='Ownership contracts (ghost owner / alive flags per element and per cell) on every destructor, push/pop construct-destroy pairing and roll-back path of the queues, '
               'from every representation-invariant state, on the extracted text.',
